@@ -91,6 +91,15 @@ def run_analyzer(pid, rec, cfg, sched, extra=None):
             cfg_eff = dict(cfg)
             cfg_eff["olap"] = float(an.config["final_olap"])
             plan = an.plan()
+        except RuntimeError as e:
+            if extra and extra.get("force_target_nf") and "forced number" in str(e):
+                rec.count("forced_plan_unreachable")  # an error is an admissible outcome (C04)
+                return None
+            if pid == "C02":
+                rec.violation("analyzer-plan-raises", f"RuntimeError: {e}")
+            else:
+                rec.blocked("analyzer.plan() raised RuntimeError (C02)")
+            return None
         except BaseException as e:
             if pid == "C02":
                 rec.violation("analyzer-plan-raises",
@@ -146,7 +155,23 @@ def run_mixed_shard(pid, params, rec, extra_kinds=None):
             run_direct(pid, rec, cfg, sched)
         if i % 4 == 0:
             sched = gen.SCHEDS[(i // 4) % 4]
-            run_analyzer(pid, rec, cfg, sched)
+            extra = None
+            if i % 8 == 4:
+                # window-derived default overlap (Kaiser psll -> kaiser_rov, Hann -> 0.5)
+                extra = {"olap": "default"}
+                if rng.random() < 0.7:
+                    extra.update(win="kaiser", psll=float(rng.choice([40, 60, 100, 150, 200])))
+                else:
+                    extra.update(win="hann")
+            elif i % 32 == 8 and cfg["N"] <= 4000:
+                # forced bin count: the probe sees every intermediate plan of the Jdes search
+                # (not with the vectorised scheduler: its 10*Jdes-point lookup grid makes every
+                # search step cost ~0.3 s; C04's own forced-count shards cover it)
+                extra = {"force_target_nf": True}
+                cfg = dict(cfg, Jdes=int(rng.choice([20, 60, 150])))
+                if sched == "vectorized_ltf":
+                    sched = "new_ltf"
+            run_analyzer(pid, rec, cfg, sched, extra)
         if extra_kinds:
             extra_kinds(rec, cfg, rng, i)
 
